@@ -34,6 +34,11 @@ def _c(pid, engine, technique, level_text, level_note, design_ref):
 
 
 CHECKS = [
+    _c("C03", E1,
+       "symbolic execution (CrossHair+z3) of _LineSet and of a real Director built from symbolic comment-parser output; with/without-directive differential over a symbolic raw error",
+       "Bounded solver-based check at the Director level: line numbers are symbolic integers; for every bounded configuration of directives, statement/call/function ranges and a symbolic raw error, appending a trailing disable (or type: ignore) on the reported line silences that error and changes nothing else except through the documented start-line mechanism. One recorded finding (implicit-return line shift) is printed as KNOWN-FINDING and excluded.",
+       "Trusted: CrossHair int/dict models, z3. Assumed: comment-parser output invariants and the compiler's implicit-return line (listed in evidence). Outside: directors/parser.py, the VM's choice of error line, `disable=*` as the appended directive.",
+       "DESIGN.md 4 C03"),
     _c("C10", E1,
        "symbolic execution (CrossHair+z3) of pytd.mro and Class.compute_mro over all bounded class hierarchies, differential against CPython's type()",
        "Bounded solver-certified exhaustive check: every hierarchy of N classes with up to MAXB bases each is linearised by the stub path (GetBasesInMRO) and the interpreter path (compute_mro) and compared with CPython: TypeError <=> MROError, else identical order.",
@@ -76,7 +81,6 @@ NOT_APPLICABLE = {
     "C15": "quantifies over source texts through compile -> blocks -> VM -> output; only the block-graph stage has an encodable kernel, claimed under C16",
     "C20": "merge_pyi parses with libcst's native parser and delegates the merge to libcst's ApplyTypeAnnotationsVisitor; the deciding code is third-party and largely native",
     # Planned in DESIGN.md; listed here until their check is committed:
-    "C03": "check under construction (DESIGN.md 4 C03); not claimed until committed",
     "C04": "check under construction (DESIGN.md 4 C04); not claimed until committed",
     "C05": "check under construction (DESIGN.md 4 C05); not claimed until committed",
     "C09": "check under construction (DESIGN.md 4 C09); not claimed until committed",
